@@ -34,6 +34,7 @@ type Obligation struct {
 }
 
 type Engine struct {
+	catClosedMemo map[string]bool
 	repo          string
 	fset          *token.FileSet
 	pkgs          map[string]*packages.Package
@@ -209,6 +210,38 @@ func (e *Engine) posStr(p token.Pos) string {
 }
 
 // ContractsFor returns the contracts tagged with property id (sorted).
+// InstantiateTemplates gives every method of a receiver type with a `methods (*T)` block, and without a contract
+// of its own, a copy of that block as its contract.
+func (e *Engine) InstantiateTemplates() {
+	for key, t := range e.cs.Templates {
+		pkg := e.pkgs[t.Pkg]
+		if pkg == nil || pkg.Types == nil {
+			continue
+		}
+		obj := pkg.Types.Scope().Lookup(t.Recv)
+		if obj == nil {
+			e.cs.Errors = append(e.cs.Errors, "methods block for unknown type "+key)
+			continue
+		}
+		named, ok := obj.Type().(*types.Named)
+		if !ok {
+			continue
+		}
+		for i := 0; i < named.NumMethods(); i++ {
+			m := named.Method(i)
+			k := contractKey(t.Pkg, t.Recv, m.Name())
+			if _, has := e.cs.Contracts[k]; has {
+				continue
+			}
+			c := *t
+			c.Name = m.Name()
+			c.Template = false
+			c.FromTemplate = true
+			e.cs.Contracts[k] = &c
+		}
+	}
+}
+
 func (e *Engine) ContractsFor(prop string) []*Contract {
 	var out []*Contract
 	for _, c := range e.cs.Contracts {
